@@ -98,7 +98,7 @@ var NontrivialRuleText = map[string]string{
 	"C05": "case has >=1 committed batch with a repeated key or a read that falls through to the database; distinct = distinct case hash",
 	"C06": "case has >=1 successful Merge followed by an adopting restart; distinct = distinct case hash",
 	"C10": "case has >=1 iterator session over >=2 visible keys; distinct = distinct case hash",
-	"C13": "case reached >=2 policy-invariant evaluations (Always / Threshold / Sync batch / Sync()/Close()); distinct = distinct case hash",
+	"C13": "case reached >=2 policy-invariant evaluations (Always / Threshold / Sync batch / Sync()/Close()); a fifth of the runs: several concurrent callers, judged per call on the journal; distinct = distinct case hash",
 	"C14": "one program of >5 transcript entries executed under >=2 configurations; distinct = distinct hash of (program, configuration tuple)",
 	"C15": "case made >=3 writes through the reused, poisoned caller buffers; distinct = distinct case hash",
 	"C17": "case has >=3 exact Stat recomputations and >=1 overwrite or delete; distinct = distinct case hash",
